@@ -194,13 +194,16 @@ def judgeEvent (cfg : NCfg) (ev : Nat) (m0 : M) : M :=
       | some e => (if e.1.t == e.2.t then "same-transition-twice:" else "related-sources:") ++ scopeKind e.2
       | none => ""))
   let m := offers.foldl (fun m o => m.flag (p2Offer m.pre o)
-    (if o.liveAt.contains o.src then "P2:source-re-entered" else "P2:source-not-active")) m
+    (if !o.liveAt.contains o.src then "P2:source-not-active"
+     else if o.exitedBefore.contains o.src then "P2:source-re-entered"
+     else "P2:source-entered-during-event")) m
   let m := m.flag (p3After offers)
     ("P3:offered-after-execution:" ++ (match (pairs offers).find? fun e => e.1.executed && isPrefix e.2.src e.1.src with
       | some e => scopeKind e.2
       | none => ""))
   let m := m.flag (p3Order offers) "P3:order"
-  let m := m.flag (p3Complete cfg ev m.pre offers m.exited) "P3:not-offered"
+  let m := m.flag (p3Complete cfg ev m.pre offers m.exited)
+    (if offers.any (·.executed) then "P3:not-offered:after-execution" else "P3:not-offered:nothing-executed")
   let m := offers.foldl (fun m o => m.flag (p4Offer cfg o) ("P4:" ++ scopeKind o)) m
   m.bad.foldl (fun acc w => acc.flag false (w ++ g)) m0
 
